@@ -497,7 +497,7 @@ impl Gen<'_> {
     }
 
     fn moperand(&mut self, depth: u32) -> String {
-        match self.rng.below(9) {
+        match self.rng.below(10) {
             0 | 1 => self.num(),
             2 => self.mvar(),
             3 if depth < 3 && self.spend() => format!("({})", self.mexpr(depth + 1)),
@@ -505,6 +505,7 @@ impl Gen<'_> {
             5 if depth < 3 && self.spend() => self.mcall(depth + 1),
             6 => self.pick(NAMES).to_string(),
             7 => format!("not {}", self.num()),
+            8 if depth < 3 && self.spend() => format!("{}_{}", self.pick(NAMES), self.mcall(depth + 1)),
             _ => self.num(),
         }
     }
